@@ -1,5 +1,6 @@
 from __future__ import annotations
 
+import copy
 import re
 from functools import total_ordering
 from typing import Any
@@ -32,7 +33,9 @@ class Base(str):
         return str(self) < str(other)
 
     def __deepcopy__(self, memo: dict[str, Any] | None = None) -> Self:
-        return self.__class__(str(self))
+        # The objects are immutable: copy them as they are instead of parsing (and thereby
+        # validating) the value again, which failed for objects created with allow_invalid.
+        return copy.copy(self)
 
     @property
     def compact(self) -> str:
